@@ -243,6 +243,10 @@ def run(ctx, build):
 
     # ---- overlapping transfers for different boards (shared image / different partitions, other image) ---------
     boards_overlap(ctx)
+    # ---- the same client port asks twice (a duplicated request): two transfers, each on its own server port; the one
+    #      the client keeps to must still complete (real threads and sockets)
+    from props import c01
+    c01.real_retransmitted_request(ctx)
 
     # ---- real threads, real UDP ---------------------------------------------------------------
     runs = 8 if ctx.thorough else 1
